@@ -13,8 +13,8 @@ from .interp import freeze, Inst
 
 
 class LossEnv:
-    def __init__(self, repo):
-        self.w = make_world(repo)
+    def __init__(self, repo, world=None):
+        self.w = world if world is not None else make_world(repo)
         g = self.w.get
         P = "jinns.parameters._params"
         self.Params, self.ParamsDict = g(P, "Params"), g(P, "ParamsDict")
